@@ -191,8 +191,13 @@ def run(ctx):
     programs = 0
     nt = 0
     with campaign.Campaign(ctx, "c19", shard_size=1500) as camp:
-        for i in range(nprog):
-            prog = exportable_program(rng)
+        fixed = common.corpus(ctx)
+        for i in range(nprog + len(fixed)):
+            explicit = []
+            if i < len(fixed):
+                prog, explicit = fixed[i]["prog"], list(fixed[i].get("values", []))
+            else:
+                prog = exportable_program(rng)
             con = campaign.realizable(prog)
             if con is None:
                 continue
@@ -213,9 +218,9 @@ def run(ctx):
             bitroot = prog["k"] == "BitStruct"
             root_kinds = [["Transformed", "Struct"], ["Restreamed", "Struct"]] if bitroot else [["Struct"]]
             names = [m["name"] for m in prog["subs"]]
-            for _ in range(4 if quick else 8):
+            for _ in range((4 if quick else 8) + len(explicit)):
                 try:
-                    v = gen.build_value(rng, prog, {})
+                    v = explicit.pop() if explicit else gen.build_value(rng, prog, {})
                     data = con.build(v)
                 except Exception:
                     continue
